@@ -673,7 +673,10 @@ class Gen:
             nm = names[u]
             if r < 0.25 and not had_main or (u == nunits - 1 and not had_main and r < 0.6):
                 had_main = True
-                self.main_program(None if (self.chance(0.2) and nunits == 1) else nm, mods[:1])
+                # an unnamed main program, alone or followed by further units (fparser then stops
+                # reading after its END: a reader that is never read to its end)
+                unnamed = self.chance(0.2) and (nunits == 1 or (u == 0 and self.chance(0.5)))
+                self.main_program(None if unnamed else nm, mods[:1])
             elif r < 0.55:
                 self.module(nm)
                 mods.append(nm)
